@@ -302,6 +302,20 @@ func (p *Packer) packWalkFn(root, src, dst string, tarW *tar.Writer, meta *Meta,
 					ok, err = p.validSymlink(src, path, target)
 				}
 			}
+			if ok && !filepath.IsAbs(target) {
+				// A relative target is stored verbatim, so it must also stay
+				// inside the archive root when read at the entry's own position.
+				// "../<name of the source dir>/f" is inside the source tree on
+				// this machine but climbs out of the root of the archive.
+				// (Targets outside of root that were accepted through the
+				// allow-list are meant to leave it.)
+				abs := filepath.Join(filepath.Dir(path), target)
+				inRoot := abs == root || strings.HasPrefix(abs, strings.TrimSuffix(root, string(filepath.Separator))+string(filepath.Separator))
+				if at := filepath.Clean(filepath.Join(filepath.Dir(subpath), target)); inRoot && (at == ".." || strings.HasPrefix(at, ".."+string(filepath.Separator))) {
+					ok = false
+					err = &IllegalSlugError{Err: fmt.Errorf("invalid symlink (%q -> %q) leaves the archive root", path, target)}
+				}
+			}
 			if ok {
 				// We can simply copy the link.
 				header.Typeflag = tar.TypeSymlink
